@@ -581,7 +581,24 @@ Definition sig_region (w : str) : option (nat * nat) :=
   | None => None
   end.
 
-Definition tamper (kind : Z) (a b : nat) (repl : str) (wires : list str) : str :=
+(* kind 4: an "attacker" who knows the secret re-signs an arbitrary message M
+   (exercises the split at the first '?', the lenient base64 decoder, binascii.Error
+   and unpickling failures behind a VALID signature) *)
+Definition resign (cs : list cspec) (m : list N) : option str :=
+  match cs with
+  | c :: _ =>
+    match c_secret c with
+    | Some sec =>
+      match utf8_encode sec with
+      | Some k => Some (c_name c ++ 61 :: quote (33 :: b64encode (hmac_md5 k m) ++ 63 :: m))
+      | None => None
+      end
+    | None => None
+    end
+  | [] => None
+  end.
+
+Definition tamper (cs : list cspec) (kind : Z) (a b : nat) (repl : str) (wires : list str) : str :=
   let hdr := join [59; 32] wires in
   match kind, wires with
   | 1%Z, _ => splice hdr a b repl
@@ -595,6 +612,7 @@ Definition tamper (kind : Z) (a b : nat) (repl : str) (wires : list str) : str :
     | Some e1, Some e2 => firstn (S e1) w1 ++ skipn (S e2) w2
     | _, _ => hdr
     end
+  | 4%Z, _ => match resign cs repl with Some h => h | None => hdr end
   | _, _ => hdr
   end.
 
@@ -634,7 +652,7 @@ Definition scenario (l : list Z) : list Z :=
             match emit_cookies j with
             | None => [2%Z]
             | Some wires =>
-              let hdr := tamper kind (Z.to_nat a) (Z.to_nat b) repl wires in
+              let hdr := tamper cs kind (Z.to_nat a) (Z.to_nat b) repl wires in
               let '(g, lc) := get_cookie pk hmac_md5 (cloads (loads_table cs)) hdr rname rsec in
               0%Z :: enc_list enc_str wires ++ enc_str hdr ++ enc_pres (parse_cookies hdr)
                   ++ enc_gres g ++ enc_option enc_str lc
